@@ -516,4 +516,40 @@ def discover (L : Layout) (self : List Char) (reqId : Nat) (ds : List (Nat × By
 def discoverTimed (L : Layout) (self : List Char) (reqId t0 timeout : Nat) (turns : List Turn) : Except PyExc (List Peer) :=
   discoverLoop self (pingLoop L reqId (t0 + timeout) turns)
 
+/-! ## context start: when the responder becomes reachable
+
+`QMI_Context.start()` is a sequence of calls on the message router.  The responder reports router fields
+(`tcp_server_port`, …) *at answer time*; the translator classifies each call of `start()` (in source order):
+does it assign a field the responder reports, does it start the responder, or neither. -/
+
+inductive StartCall | other | setsReported | startsResponder
+  deriving DecidableEq, Repr
+
+/-- the reported field (the TCP port: 0 until the server socket is bound) and whether the responder is up -/
+structure LState where
+  port : Nat
+  up : Bool
+  deriving DecidableEq, Repr
+
+def lstep (bound : Nat) (s : LState) : StartCall → LState
+  | .other => s
+  | .setsReported => { s with port := bound }
+  | .startsResponder => { s with up := true }
+
+def lrun (bound : Nat) (s : LState) (calls : List StartCall) : LState := calls.foldl (lstep bound) s
+
+def orderOk : List StartCall → Bool
+  | [] => true
+  | .startsResponder :: rest => rest.all (· != .setsReported)
+  | _ :: rest => orderOk rest
+
+
+def startCallOfNat : Nat → StartCall
+  | 1 => .setsReported
+  | 2 => .startsResponder
+  | _ => .other
+
+/-- the calls of the current `QMI_Context.start()` -/
+def genStartCalls : List StartCall := Gen.DiscoveryLayouts.startCalls.map startCallOfNat
+
 end QmiModel.Discovery
